@@ -140,9 +140,13 @@ func runC13Case(w *c13World, c kit.Case, base int, tr *kit.Tracer) kit.Verdict {
 		}
 		ev["asg"] = w.look(main, w.probe)
 		ev["asg2"] = w.look(main, w.probe)
-		ev["alt"] = w.look(shadow, w.probe)
 		cur := w.lookPop(main)
-		alt := w.lookPop(shadow)
+		var alt []string
+		if op != "remove" && op != "lookup" {
+			// reference for "re-adding replaces the previous virtual nodes"
+			ev["alt"] = w.look(shadow, w.probe)
+			alt = w.lookPop(shadow)
+		}
 		cnt := map[string]int{c13None: 0}
 		for _, n := range w.order {
 			cnt[n] = 0
@@ -155,7 +159,7 @@ func runC13Case(w *c13World, c kit.Case, base int, tr *kit.Tracer) kit.Verdict {
 			if prev[i] != n {
 				moved[ft{prev[i], n}]++
 			}
-			if alt[i] != n {
+			if alt != nil && alt[i] != n {
 				altd++
 			}
 		}
@@ -170,7 +174,10 @@ func runC13Case(w *c13World, c kit.Case, base int, tr *kit.Tracer) kit.Verdict {
 			}
 			return a["t"].(string) < b["t"].(string)
 		})
-		ev["cnt"], ev["mv"], ev["altd"] = cnt, mv, altd
+		ev["cnt"], ev["mv"] = cnt, mv
+		if alt != nil {
+			ev["altd"] = altd
+		}
 		tr.Emit(ev)
 		prev = cur
 		v.Steps++
